@@ -23,7 +23,7 @@ impl Check for C16 {
         600
     }
     fn cases(&self, tier: Tier) -> u64 {
-        tier.pick(8_000, 600_000)
+        tier.pick(60_000, 2_000_000)
     }
     fn run_case(&self, src: &mut Src, obs: &mut Obs) -> Result<(), Fail> {
         let two_d = src.chance(1, 5);
